@@ -22,7 +22,7 @@ RULE = (
     "distinct = digest of the operation/outcome trace"
 )
 ASSUMPTIONS = ["clients behave as shm/client.py does (create segment after a granted allocate, close callbacks)", "one Manager per history; monitors run on the thread that drives the Manager"]
-REQUIRED_COUNTERS = ["content_checks", "get_granted", "fresh_reader_closes", "purges_during_fresh_read", "delayed_purges_completed", "pageouts_completed", "pageins_completed", "grant_probes", "grant_probes_granted", "eviction_attempts_finding_nothing"]
+REQUIRED_COUNTERS = ["content_checks", "get_granted", "fresh_reader_closes", "purges_during_fresh_read", "delayed_purges_completed", "pageouts_completed", "pageins_completed", "grant_probes", "grant_probes_granted", "eviction_attempts_finding_nothing", "stress_reads_checked"]
 PROP = "C09"
 
 
@@ -37,7 +37,66 @@ def one_history(col: Collector, rng, index: int, max_ops: int, prop: str):
     col.count("operations", n)
 
 
+def run_stress(spec, col: Collector):
+    """Second tier: the real UDP server process + real client processes (vlib/shmstress.py)."""
+    import json
+    import random
+    import signal
+    import subprocess
+    import tempfile
+    from vlib.common.driver import PY, child_env
+    rng = random.Random(f"{spec['seed']}/{spec['shard']}")
+    for i in range(spec["n"]):
+        if col.out_of_time():
+            break
+        no = spec["shard_no"]
+        cap = rng.choice([4096, 20000, 65536])
+        sspec = {"seed": f"{spec['seed']}/{spec['shard']}/{i}", "tmp": tempfile.mkdtemp(prefix=f"v08s{no}-"), "prefix": f"vs{PROP[2]}{no:x}{i % 256:02x}", "port": 25000 + (0 if PROP == "C08" else 400) + no * 20 + (i % 8),
+                 "capacity": cap, "clients": rng.randint(2, 8), "ops": spec["ops"], "sizes": [s_ for s_ in [10, 40, 200, 1000, 4096, 6000, 30000] if s_ <= cap], "max_s": 60, "keys": 0}
+        fd, path = tempfile.mkstemp(prefix="v08spec", suffix=".json")
+        with os.fdopen(fd, "w") as f:
+            json.dump(sspec, f)
+        out = ""
+        try:
+            p = subprocess.Popen([PY, "-m", "vlib.shmstress", path], env=child_env(), cwd=os.path.dirname(os.path.dirname(os.path.dirname(os.path.abspath(__file__)))),
+                                 stdout=subprocess.PIPE, stderr=subprocess.DEVNULL, start_new_session=True, text=True)
+            try:
+                out, _ = p.communicate(timeout=120)
+            except subprocess.TimeoutExpired:
+                out = ""
+            finally:
+                try:
+                    os.killpg(p.pid, signal.SIGKILL)
+                except ProcessLookupError:
+                    pass
+                p.wait()
+        finally:
+            os.unlink(path)
+            import shutil
+            shutil.rmtree(sspec["tmp"], ignore_errors=True)
+        res = None
+        for ln in out.splitlines():
+            if ln.startswith("RESULT "):
+                res = json.loads(ln[7:])
+        if res is None or res.get("outcome") != "ok":
+            col.not_reached(f"stress scenario produced no result: {(res or {}).get('error', 'timeout')[-300:]}")
+            continue
+        st = res["stats"]
+        col.case(shape=digest("stress", sspec["clients"], cap, st.get("allocated", 0) // 20, st.get("reads", 0) // 20), nontrivial=st.get("reads_checked", 0) > 0 and st.get("barrier_equalities", 0) > 0,
+                 sample={"tier": "real server + client processes", "clients": sspec["clients"], "capacity": cap, "stats": st})
+        for k, v in st.items():
+            col.count(f"stress_{k}", v)
+        col.count("stress_scenarios")
+        for (prop, mech, msg) in res["violations"]:
+            if prop == PROP:
+                col.violation(f"stress:{mech}", msg, {"spec": {k: v for k, v in sspec.items() if k != "tmp"}, "stats": st}, i)
+            elif prop == "H":
+                col.not_reached(f"stress harness: {mech}: {msg[:200]}")
+
+
 def run_shard(spec, col: Collector):
+    if spec.get("kind") == "stress":
+        return run_stress(spec, col)
     import logging
     import warnings
     logging.getLogger("cascade").setLevel(logging.CRITICAL + 10)
@@ -56,4 +115,6 @@ def plan(tier, seed, scale=1.0):
     q = tier == "quick"
     n, copies, ops = (60, 8, 400) if q else (1500, 16, 2000)
     return [dict(shard=f"m{c}", n=int(n * scale), max_ops=ops, prop=PROP, budget_s=60 if q else 900, timeout_s=180 if q else 1500,
-                 hash_seed=(seed * 41 + c) % 4294967295) for c in range(copies)]
+                 hash_seed=(seed * 41 + c) % 4294967295) for c in range(copies)] + [
+        dict(kind="stress", shard=f"x{c}", shard_no=c, n=max(1, int((1 if q else 6) * scale)), ops=120 if q else 400, budget_s=100 if q else 1200, timeout_s=250 if q else 1800)
+        for c in range(2 if q else 6)]
